@@ -5,6 +5,22 @@ use serde_json::{json, Value};
 use std::collections::BTreeSet;
 
 // ---------------------------------------------------------------------------------------------
+// concrete-syntax style (varied per file; the AST is the same)
+
+pub const STYLE_SINGLE_QUOTE_ATTRS: u32 = 1;
+pub const STYLE_TIGHT_BRACES: u32 = 2;
+pub const STYLE_PAIRED_EMPTY: u32 = 4;
+pub const STYLE_NEWLINES: u32 = 8;
+pub const STYLE_SPACE_BEFORE_CLOSE: u32 = 16;
+
+thread_local! {
+    static STYLE: std::cell::Cell<u32> = const { std::cell::Cell::new(0) };
+}
+fn style(flag: u32) -> bool {
+    STYLE.with(|s| s.get() & flag != 0)
+}
+
+// ---------------------------------------------------------------------------------------------
 // expressions
 
 #[derive(Clone, Debug, PartialEq)]
@@ -71,9 +87,11 @@ impl Expr {
             Expr::Id(s) => out.push_str(s),
             Expr::Num(s) => out.push_str(s),
             Expr::Str(s) => {
-                out.push('\'');
+                // string literals use the quote character the attribute does not use
+                let q = if style(STYLE_SINGLE_QUOTE_ATTRS) { '"' } else { '\'' };
+                out.push(q);
                 out.push_str(s);
-                out.push('\'');
+                out.push(q);
             }
             Expr::Bool(b) => out.push_str(if *b { "true" } else { "false" }),
             Expr::Null => out.push_str("null"),
@@ -325,14 +343,37 @@ pub enum Node {
     Comment(String),
 }
 
+fn open_brace(e: &Expr, out: &mut String) {
+    // `{{{` would read as a binding that starts with an object literal only with a space
+    if style(STYLE_TIGHT_BRACES) && !matches!(e, Expr::Obj(_)) && !matches!(e, Expr::Member(b, _) | Expr::Index(b, _) if matches!(**b, Expr::Obj(_))) {
+        out.push_str("{{");
+    } else {
+        out.push_str("{{ ");
+    }
+}
+fn close_brace(out: &mut String) {
+    if style(STYLE_TIGHT_BRACES) && !out.ends_with('}') {
+        out.push_str("}}");
+    } else {
+        out.push_str(" }}");
+    }
+}
+fn quote() -> char {
+    if style(STYLE_SINGLE_QUOTE_ATTRS) {
+        '\''
+    } else {
+        '"'
+    }
+}
+
 fn print_parts(parts: &[TextPart], out: &mut String) {
     for p in parts {
         match p {
             TextPart::Lit(s) => out.push_str(s),
             TextPart::Bind(e) => {
-                out.push_str("{{ ");
+                open_brace(e, out);
                 e.print(out);
-                out.push_str(" }}");
+                close_brace(out);
             }
         }
     }
@@ -342,19 +383,24 @@ fn print_attr_val(v: &AttrVal, out: &mut String) {
     match v {
         AttrVal::None => {}
         AttrVal::Static(s) => {
-            out.push_str("=\"");
+            out.push('=');
+            out.push(quote());
             out.push_str(s);
-            out.push('"');
+            out.push(quote());
         }
         AttrVal::Bind(e) => {
-            out.push_str("=\"{{ ");
+            out.push('=');
+            out.push(quote());
+            open_brace(e, out);
             e.print(out);
-            out.push_str(" }}\"");
+            close_brace(out);
+            out.push(quote());
         }
         AttrVal::Mixed(parts) => {
-            out.push_str("=\"");
+            out.push('=');
+            out.push(quote());
             print_parts(parts, out);
-            out.push('"');
+            out.push(quote());
         }
     }
 }
@@ -368,7 +414,11 @@ fn print_attrs(attrs: &[Attr], out: &mut String) {
 }
 
 pub fn print_nodes(nodes: &[Node], out: &mut String) {
-    for n in nodes {
+    for (i, n) in nodes.iter().enumerate() {
+        // whitespace-only text between two elements is dropped by the parser
+        if i > 0 && style(STYLE_NEWLINES) && !matches!(n, Node::Text(_)) && !matches!(nodes[i - 1], Node::Text(_)) {
+            out.push_str("\n  ");
+        }
         print_node(n, out);
     }
 }
@@ -380,7 +430,10 @@ fn print_node(n: &Node, out: &mut String) {
             out.push('<');
             out.push_str(tag);
             print_attrs(attrs, out);
-            if children.is_empty() {
+            if children.is_empty() && !style(STYLE_PAIRED_EMPTY) {
+                if style(STYLE_SPACE_BEFORE_CLOSE) {
+                    out.push(' ');
+                }
                 out.push_str("/>");
             } else {
                 out.push('>');
@@ -498,6 +551,8 @@ pub struct TFile {
     pub body: Vec<Node>,
     /// fixed source (catalogue components); when set, the fields above are ignored
     pub raw: Option<String>,
+    /// concrete-syntax style flags (STYLE_*)
+    pub style: u32,
 }
 
 impl TFile {
@@ -505,6 +560,12 @@ impl TFile {
         if let Some(r) = &self.raw {
             return r.clone();
         }
+        STYLE.with(|st| st.set(self.style));
+        let s = self.to_wxml_inner();
+        STYLE.with(|st| st.set(0));
+        s
+    }
+    fn to_wxml_inner(&self) -> String {
         let mut s = String::new();
         for i in &self.imports {
             s.push_str(&format!("<import src=\"{}\"/>", i));
